@@ -112,6 +112,7 @@ func (repo *ReorgRepository) List(ctx context.Context) ([]*Reorg, error) {
 	result := make([]*Reorg, len(data))
 	for i, b := range data {
 		buf := bytes.NewBuffer(b)
+		result[i] = &Reorg{}
 		if err := result[i].Read(buf); err != nil {
 			return nil, err
 		}
@@ -175,6 +176,11 @@ func (reorg *Reorg) Read(buf *bytes.Buffer) error {
 		return err
 	}
 
+	// Each block takes at least a header, so a count beyond that is not in the data.
+	if int64(count)*wire.MaxBlockHeaderPayload > int64(buf.Len()) {
+		return errors.New("Invalid reorg block count")
+	}
+
 	reorg.Blocks = make([]ReorgBlock, count)
 	for i, _ := range reorg.Blocks {
 		if err := reorg.Blocks[i].Read(buf); err != nil {
@@ -213,6 +219,10 @@ func (block *ReorgBlock) Read(buf *bytes.Buffer) error {
 	var count uint32
 	if err := binary.Read(buf, binary.LittleEndian, &count); err != nil {
 		return err
+	}
+
+	if int64(count)*bitcoin.Hash32Size > int64(buf.Len()) {
+		return errors.New("Invalid reorg block tx count")
 	}
 
 	block.TxIds = make([]bitcoin.Hash32, count)
